@@ -30,3 +30,13 @@ func (s *Shared) touch() {
 
 func (s *Shared) Add(d int) { s.touch(); s.v += d }
 func (s *Shared) Load() int { s.touch(); rt.Log("load", s.v); return s.v }
+
+// WatchClosed lets the oracle see, on the terminal state, whether ch (a channel
+// returned by the code under test) has been closed.
+func WatchClosed(name string, ch any) {
+	c, ok := ch.(rt.ClosedFlag)
+	if !ok {
+		panic("env.WatchClosed: not a simulated channel")
+	}
+	rt.Watch(name, c.IsClosed)
+}
